@@ -307,6 +307,14 @@ Record cfg := mkCfg { parser_on : bool; plugins_on : bool; ps_on : bool; txn_mod
     server's transaction status after it processed the message/batch, if forwarded
     (environment).  Statement names: 0 is the unnamed statement.  [key]: identity of
     the statement text (Parse::get_hash). *)
+(** pgcat's custom commands as far as C19 is concerned.  SET SERVER ROLE TO 'primary' |
+    'replica' | 'any' | 'auto' | 'default' changes the session's query-parser override
+    (query_router.rs try_execute_command); [servers_ok]: whether the pool has a server of the
+    role the command selects (environment: later checkouts fail otherwise).  Everything else
+    (SET PRIMARY READS, SET SHARD, SET SHARDING KEY, SHOW ...) changes nothing here. *)
+Inductive role_arg := RPrimary | RReplica | RAny | RAuto | RDefault.
+Inductive command := CRole (r : role_arg) (servers_ok : bool) | COther.
+
 Inductive msg :=
 | MQ (id : nat) (parsed : bool) (v : verdict) (pool_ok tx_after : bool)
 | MP (id : nat) (name key : nat) (parsed : bool) (v : verdict)
@@ -315,18 +323,22 @@ Inductive msg :=
 | ME (id : nat)
 | MC (id : nat) (is_stmt : bool) (name : nat)
 | MS (id : nat) (pool_ok tx_after : bool)
-| MH (id : nat) (pool_ok : bool).   (* Flush, or any code the loops neither buffer nor forward *)
+| MH (id : nat) (pool_ok : bool)    (* Flush, or any code the loops neither buffer nor forward *)
+| MCmd (id : nat) (cmd : command) (pool_ok tx_after : bool).
+    (* a simple Query whose text is one of pgcat's custom commands (CUSTOM_SQL_REGEXES) *)
 
 Definition msg_id (m : msg) : nat :=
   match m with
-  | MQ i _ _ _ _ | MP i _ _ _ _ | MB i _ | MD i _ _ | ME i | MC i _ _ | MS i _ _ | MH i _ => i
+  | MQ i _ _ _ _ | MP i _ _ _ _ | MB i _ | MD i _ _ | ME i | MC i _ _ | MS i _ _ | MH i _ | MCmd i _ _ _ => i
   end.
 
 (** what the plugins contribute for a text, given the settings *)
 Definition plug (c : cfg) (v : verdict) : verdict := if plugins_on c then v else Allow.
-(** verdict that is acted on for a Q: plugins run only if the parser is on and accepts *)
+(** verdict that is acted on: the plugins run on a message that pgcat parsed.  From here on
+    [parsed] means: the session parses messages ([parses], below) AND sqlparser accepts the
+    text - [arrive] folds the first part in when the message arrives. *)
 Definition eff (c : cfg) (parsed : bool) (v : verdict) : verdict :=
-  if parser_on c && parsed then plug c v else Allow.
+  if parsed then plug c v else Allow.
 
 (** A message whose text the plugins reject (Deny) or answer themselves (Intercept). *)
 Definition bad_msg (c : cfg) (m : msg) : bool :=
@@ -348,6 +360,7 @@ Inductive event :=
 | EvErr (k : errkind)               (* ErrorResponse + ReadyForQuery to the client *)
 | EvIntercept (t : nat)             (* the intercept rows to the client *)
 | EvCheckout | EvRelease            (* server taken from / returned to the pool *)
+| EvCmd                             (* a custom command answered by pgcat itself *)
 | EvEnd.                            (* handle() returned Err: the client task ends *)
 
 (** A buffered message; for a Bind / Describe(statement) under caching also the Parse its
@@ -362,20 +375,24 @@ Record state := mkState {
   ebuf : list bitem;                (* extended_protocol_data_buffer *)
   ps : list (nat * msg);            (* client prepared_statements: name -> Parse, newest first *)
   rej : list nat;                   (* rejected_statements: names of Parses of this batch a plugin rejected *)
-  srv : list nat                    (* statements the (single) server connection has *)
+  srv : list nat;                   (* statements the (single) server connection has *)
+  sess : option bool * bool         (* QueryRouter.query_parser_enabled (the session's override: None = pool setting),
+                                       and whether the pool has a server of the role the session selected *)
 }.
+Definition ov (s : state) : option bool := fst (sess s).
+Definition role_ok (s : state) : bool := snd (sess s).
 
-Definition init : state := mkState false false false Allow [] [] [] [].
+Definition init : state := mkState false false false Allow [] [] [] [] (None, true).
 Definition bmsgs (s : state) : list msg := map fst (ebuf s).
 
-Definition set_pout (s : state) (v : verdict) := mkState (dead s) (held s) (stx s) v (ebuf s) (ps s) (rej s) (srv s).
-Definition push (s : state) (b : bitem) := mkState (dead s) (held s) (stx s) (pout s) (ebuf s ++ [b]) (ps s) (rej s) (srv s).
-Definition set_ps (s : state) (p : list (nat * msg)) := mkState (dead s) (held s) (stx s) (pout s) (ebuf s) p (rej s) (srv s).
-Definition set_rej (s : state) (r : list nat) := mkState (dead s) (held s) (stx s) (pout s) (ebuf s) (ps s) r (srv s).
-Definition set_held (s : state) (h tx : bool) := mkState (dead s) h tx (pout s) (ebuf s) (ps s) (rej s) (srv s).
-Definition kill (s : state) := mkState true (held s) (stx s) (pout s) (ebuf s) (ps s) (rej s) (srv s).
+Definition set_pout (s : state) (v : verdict) := mkState (dead s) (held s) (stx s) v (ebuf s) (ps s) (rej s) (srv s) (sess s).
+Definition push (s : state) (b : bitem) := mkState (dead s) (held s) (stx s) (pout s) (ebuf s ++ [b]) (ps s) (rej s) (srv s) (sess s).
+Definition set_ps (s : state) (p : list (nat * msg)) := mkState (dead s) (held s) (stx s) (pout s) (ebuf s) p (rej s) (srv s) (sess s).
+Definition set_rej (s : state) (r : list nat) := mkState (dead s) (held s) (stx s) (pout s) (ebuf s) (ps s) r (srv s) (sess s).
+Definition set_held (s : state) (h tx : bool) := mkState (dead s) h tx (pout s) (ebuf s) (ps s) (rej s) (srv s) (sess s).
+Definition kill (s : state) := mkState true (held s) (stx s) (pout s) (ebuf s) (ps s) (rej s) (srv s) (sess s).
 (** after the batch went to the server: the buffer is empty, the server cache updated *)
-Definition drained (s : state) (sv : list nat) := mkState (dead s) (held s) (stx s) (pout s) [] (ps s) (rej s) sv.
+Definition drained (s : state) (sv : list nat) := mkState (dead s) (held s) (stx s) (pout s) [] (ps s) (rej s) sv (sess s).
 
 Fixpoint lookup (n : nat) (l : list (nat * msg)) : option msg :=
   match l with
@@ -392,7 +409,7 @@ Definition forget (names : list nat) (l : list (nat * msg)) : list (nat * msg) :
 (** reset_buffered_state (0acefb2): every name a rejected Parse of this batch gave is taken
     out of the client's map; the buffers are cleared. *)
 Definition reset (s : state) :=
-  mkState (dead s) (held s) (stx s) (pout s) [] (forget (rej s) (ps s)) [] (srv s).
+  mkState (dead s) (held s) (stx s) (pout s) [] (forget (rej s) (ps s)) [] (srv s) (sess s).
 (** reset_buffered_state + plugin_output = None *)
 Definition consume (s : state) := set_pout (reset s) Allow.
 
@@ -407,7 +424,7 @@ Definition consume (s : state) := set_pout (reset s) Allow.
 Definition buffer_msg (c : cfg) (s : state) (m : msg) : state * list event :=
   match m with
   | MP _ name _ parsed v =>
-      let s1 := if parser_on c && parsed
+      let s1 := if parsed
                 then (if is_allow (pout s) then set_pout s (plug c v) else s)
                 else s in
       let s2 := if ps_on c
@@ -494,18 +511,21 @@ Definition step_inner (c : cfg) (s : state) (m : msg) : state * list event :=
           end
       end
   | MH _ _ => (s, [])                                               (* Unexpected code *)
+  | MCmd _ _ _ tx =>                                                (* custom commands are only recognised by the outer loop:
+                                                                       here the text is an ordinary query that no plugin rejects *)
+      let '(s', ev) := after_server c s tx in (s', EvFwd [FMsg m] :: ev)
   end.
 
 Definition is_sync (m : msg) : bool := match m with MS _ _ _ => true | _ => false end.
 Definition pool_ok_of (m : msg) : bool :=
-  match m with MQ _ _ _ p _ | MS _ p _ | MH _ p => p | _ => true end.
+  match m with MQ _ _ _ p _ | MS _ p _ | MH _ p | MCmd _ _ p _ => p | _ => true end.
 
 (** Outer loop after the match: the check on plugin results acts on Deny for every
     message and (since a7d476c) on Intercept for a Sync, both BEFORE the checkout; then
     the checkout (a failed one at a Sync calls reset_buffered_state); then the message is
     handled by the transaction loop. *)
 Definition outer_checkout (c : cfg) (s : state) (m : msg) : state * list event :=
-  if pool_ok_of m then
+  if pool_ok_of m && role_ok s then
     let '(s', ev) := step_inner c (set_held s true false) m in (s', EvCheckout :: ev)
   else ((if is_sync m then reset s else s), [EvErr EPool]).
 
@@ -516,9 +536,20 @@ Definition outer_rest (c : cfg) (s : state) (m : msg) : state * list event :=
   | Allow => outer_checkout c s m
   end.
 
+(** handle_custom_protocol: the command is executed and answered, nothing else happens (a
+    pending verdict and the buffered batch stay as they are). *)
+Definition apply_cmd (s : state) (cmd : command) : state :=
+  match cmd with
+  | CRole r ok =>
+      let o := match r with RPrimary | RReplica | RAny => Some false | RAuto => Some true | RDefault => None end in
+      mkState (dead s) (held s) (stx s) (pout s) (ebuf s) (ps s) (rej s) (srv s) (o, ok)
+  | COther => s
+  end.
+
 (** Outer loop (no server held). *)
 Definition step_outer (c : cfg) (s : state) (m : msg) : state * list event :=
   match m with
+  | MCmd _ cmd _ _ => (apply_cmd s cmd, [EvCmd])
   | MQ _ parsed v _ _ =>
       match eff c parsed v with
       | Deny t => (s, [EvErr (EPlugin t)])
@@ -529,13 +560,36 @@ Definition step_outer (c : cfg) (s : state) (m : msg) : state * list event :=
   | MS _ _ _ | MH _ _ => outer_rest c s m
   end.
 
-Definition step (c : cfg) (s : state) (m : msg) : state * list event :=
+Definition step_core (c : cfg) (s : state) (m : msg) : state * list event :=
   if dead s then (s, []) else if held s then step_inner c s m else step_outer c s m.
 
-Fixpoint run (c : cfg) (s : state) (ops : list msg) : state * list event :=
-  match ops with
-  | [] => (s, [])
-  | m :: r => let '(s1, e1) := step c s m in let '(s2, e2) := run c s1 r in (s2, e1 ++ e2)
+(** QueryRouter::query_parser_enabled(): the session's override, else the pool's setting. *)
+Definition qpe (c : cfg) (s : state) : bool :=
+  match ov s with None => parser_on c | Some b => b end.
+(** QueryRouter::parses_messages() (2a7a370): messages are parsed when the session's parser
+    is on, and also whenever the pool's parser is on and the pool runs plugins - SET SERVER
+    ROLE switches the session's role inference off, not the pool's plugins. *)
+Definition parses (c : cfg) (s : state) : bool := qpe c s || (parser_on c && plugins_on c).
+(** the gate before 2a7a370 (kept as a mutant: F35) *)
+Definition parses_old (c : cfg) (s : state) : bool := qpe c s.
+
+(** A Q / P arrives: it is parsed iff the session parses messages and sqlparser accepts it. *)
+Definition arrive_with (P : cfg -> state -> bool) (c : cfg) (s : state) (m : msg) : msg :=
+  match m with
+  | MQ i p v po tx => MQ i (p && P c s) v po tx
+  | MP i n k p v => MP i n k (p && P c s) v
+  | _ => m
   end.
 
+Definition step_with (P : cfg -> state -> bool) (c : cfg) (s : state) (m : msg) : state * list event :=
+  step_core c s (arrive_with P c s m).
+
+Fixpoint run_with (P : cfg -> state -> bool) (c : cfg) (s : state) (ops : list msg) : state * list event :=
+  match ops with
+  | [] => (s, [])
+  | m :: r => let '(s1, e1) := step_with P c s m in let '(s2, e2) := run_with P c s1 r in (s2, e1 ++ e2)
+  end.
+
+Definition step := step_with parses.
+Definition run := run_with parses.
 Definition trace (c : cfg) (ops : list msg) : list event := snd (run c init ops).
